@@ -750,8 +750,10 @@ PROPS["C09"] = dict(
         V("C09.group_length", "c09_group_length.vrs",
           "FileMetaTable::calculate_information_group_length == sum over the elements of PS3.10 Table 7.1-1 present in the table of "
           "(Explicit VR LE header size + even-padded value length): OB version 12+2, four UIs 8+n, optional SH/AE/AE/AE/UI 8+n, "
-          "optional private information OB 12+n; dicom_len == even(byte length)",
-          expected_verified=5),
+          "optional private information OB 12+n; dicom_len == even(byte length); "
+          "FileMetaTable::update_information_group_length (called by the builder, by ApplyOp::apply and by set_transfer_syntax) stores exactly "
+          "that number in information_group_length and changes no other attribute of the table",
+          expected_verified=6),
         N("C09.written_length",
           "cp /repo/Cargo.lock /verif/witness/Cargo.lock && CARGO_TARGET_DIR=/verif/build/witness cargo run --offline -q --release "
           "--manifest-path /verif/witness/Cargo.toml --bin c09_written_length 2>&1 | grep -E '^(WITNESS|EXHAUSTIVE|SKIPPED|error)' | tail -220",
@@ -780,7 +782,7 @@ PROPS["C09"] = dict(
     assumptions=["string byte lengths are abstract (Verus has no str byte reasoning); strings <= 65535 bytes, private information < 2 GiB (preconditions)",
                  "header sizes 8 (UI, SH, AE) and 12 (OB) are those proved for the real Explicit VR LE encoder in C03",
                  "closure postconditions are ghost annotations inserted by a declared rewrite that carries the constant found in the code into the annotation"],
-    uncovered=["that update_information_group_length / the builder store this value, and that FileMetaTable::write emits exactly these bytes "
+    uncovered=["that the builder and apply() call update_information_group_length after their last change (the callee is under contract, the call sites are only exercised by the native units), and that FileMetaTable::write emits exactly these bytes "
                "(writer pipeline: DataSetWriter, not within reach)", "deductive treatment of reading the group back, of attribute operations and of preamble detection (only the native units cover them)"],
 )
 
